@@ -2069,6 +2069,36 @@ pub fn sweep_texts(items: &[(String, String, Vec<usize>)], detectors: &[Detector
         }
         reduce(&mut s.violations);
     }
+    // ---- third layout: every 8th program (the ones between those of the CRLF pass) below a comment line full of multi-byte
+    //      characters: byte offsets and character offsets differ by ~60 from there on, much more than a line of this layout
+    //      is long, so arithmetic that confuses the two lands on other lines
+    if !items.is_empty() {
+        let stride = (items.len() / 2000).max(8);
+        let sel: Vec<usize> = (stride / 2..items.len()).step_by(stride).collect();
+        let head = "/* \u{e9}\u{e9} \u{4e2d}\u{6587}\u{4e2d}\u{6587}\u{4e2d}\u{6587} \u{1f600}\u{1f600}\u{1f600}\u{1f600}\u{1f600}\u{1f600}\u{1f600}\u{1f600} \u{43f}\u{440}\u{438}\u{432}\u{435}\u{442} */\n";
+        let mres = util::par_map(sel.len(), |k| {
+            let (label, text, toks) = &items[sel[k]];
+            let text2 = format!("{}{}", head, text);
+            let toks2: Vec<usize> = toks.iter().map(|&o| o + head.len()).collect();
+            let r = check_text(&text2, &toks2, &format!("{}:multibyte-header", label), detectors, mode);
+            let mut vs = Vec::new();
+            for mut v in r.violations {
+                v.observed = format!("{} [the same program below a comment line of multi-byte characters]", v.observed);
+                vs.push(v);
+            }
+            (vs, r.calls, r.conform.err())
+        });
+        for (vs, c, m) in mres {
+            s.calls += c;
+            s.violations.extend(vs);
+            if let Some(e) = m {
+                if s.machinery.len() < 20 {
+                    s.machinery.push(e);
+                }
+            }
+        }
+        reduce(&mut s.violations);
+    }
     s.distinct_outcomes = outcomes.len() as u64;
     s.outcome_set = outcomes.into_iter().collect();
     s.stats = detectors.iter().zip(st).map(|(d, (a, b, c))| (d.name.to_string(), a, b, c)).collect();
